@@ -32,7 +32,7 @@ RULE = ('one run = one seeded source history (undo records, deletions, '
         'evaluation = one copy or one recovery; non-trivial = >= 2 source '
         'transactions; distinct = (arm, source hash, variant)')
 BUDGET = {'quick': {'runs': 4000, 'wall': 300, 'chunk': 10},
-          'thorough': {'runs': 300000, 'wall': 1800, 'chunk': 50}}
+          'thorough': {'runs': 300000, 'wall': 1200, 'chunk': 50}}
 ASSUMPTIONS = [
     'a copy is query-identical, not byte-identical (back pointers are '
     're-derived from hints)',
